@@ -209,4 +209,39 @@ theorem world_log_step (H : HashFn) (w : W.World) (i : W.Inv) (ls : List Bytes) 
     · obtain ⟨r, hr, rfl⟩ := List.mem_map.mp h; exact hok r hr
   · rw [heq, h1]; exact log_reads_back ls rs recs h2 h3 hsafe hok
 
+/-- the records an invocation appends are lines the scanner returns whole and are `LineSafe` — a condition on the identity, on the
+    first line of the message and on the ids written, for whichever decomposition into records of the loaded identity -/
+def StepLog (H : HashFn) (w : W.World) (i : W.Inv) : Prop :=
+  ∀ recs : List Rec, (∀ r ∈ recs, W.ByLoaded H w r) →
+    (W.run H w i).1.logHead.getD [] = w.logHead.getD [] ++ (recs.map Reflog.format).flatten →
+    ∀ r ∈ recs, LineSafe r ∧ LineOK (lineOf r)
+
+def StepLogAll (H : HashFn) : W.World → List W.Inv → Prop
+  | _, [] => True
+  | w, i :: is => StepLog H w i ∧ StepLogAll H (W.run H w i).1 is
+
+/-- **The journal reads back after every history**: from the empty directory, after any sequence of invocations whose appended
+    records meet `StepLog`, `logs/HEAD` is a sequence of whole lines and Goit's own reader returns a list of entries for it (never an
+    error, never a partial record) -/
+theorem world_log_history (H : HashFn) (w : W.World) (is : List W.Inv) (ls : List Bytes) (rs : List Loaded)
+    (hinv : LogInv w ls rs) (hsl : StepLogAll H w is) :
+    ∃ ls' rs', LogInv (W.runAll H w is) (ls ++ ls') (rs ++ rs') ∧
+      Reflog.parse ((W.runAll H w is).logHead.getD []) = some (rs ++ rs') := by
+  unfold W.runAll
+  induction is generalizing w ls rs with
+  | nil =>
+    refine ⟨[], [], by simpa using hinv, ?_⟩
+    obtain ⟨h1, h2, h3⟩ := hinv
+    simp only [List.foldl_nil, List.append_nil]
+    rw [h1]; unfold Reflog.parse; rw [scanLinesE_unlines ls h2]; exact h3
+  | cons i is ih =>
+    obtain ⟨recs, hby, heq⟩ := world_appends_records H w i
+    have hs := hsl.1 recs hby heq
+    obtain ⟨hinv', _⟩ := world_log_step H w i ls rs recs hinv heq (fun r hr => (hs r hr).1) (fun r hr => (hs r hr).2)
+    obtain ⟨ls', rs', h1, h2⟩ := ih (W.run H w i).1 _ _ hinv' hsl.2
+    simp only [List.foldl_cons]
+    exact ⟨recs.map lineOf ++ ls', recs.map loaded ++ rs', by simpa [List.append_assoc] using h1, by simpa [List.append_assoc] using h2⟩
+
+theorem logInv_empty : LogInv {} [] [] := ⟨rfl, (fun l hl => by cases hl), rfl⟩
+
 end C11
